@@ -17,6 +17,7 @@ var cliScripts = [][]int{
 	{hUpgrade, hConnection},
 	{hUpgrade}, {hConnection}, {hAccept}, {hProtocol}, {hExtensions}, {hOther}, {hMalformed},
 	{hUpgrade, hConnection, hAccept, hProtocol, hExtensions, hOther},
+	{hUpgrade, hConnection, hAccept, hExtensions, hExtensions},
 	{hUpgrade, hConnection, hAccept, hProtocol, hProtocol},
 	{hProtocol, hUpgrade, hConnection, hAccept},
 }
@@ -140,7 +141,7 @@ func dialerUpgradeRules(c *Ctx, prop string) {
 		}
 		m.Models[ws+".matchSelectedExtensions"] = func(cl *fold.Call) fold.Val {
 			cl.M.Emit(fold.Effect{Kind: "call", Name: "matchExtensions", Args: cl.Args})
-			return fold.Tuple{fold.SymSeq{Name: "matched-exts", Len: fold.Range(0, 10)}, errChoice(cl.M, fmt.Sprintf("match#%d.err", cl.Seq), "match-error")}
+			return fold.Tuple{fold.SymSeq{Name: fmt.Sprintf("matched-exts#%d", cl.Seq), Len: fold.Range(0, 10)}, errChoice(cl.M, fmt.Sprintf("match#%d.err", cl.Seq), "match-error")}
 		}
 		m.Models["callback:OnHeader"] = func(cl *fold.Call) fold.Val {
 			cl.M.Emit(fold.Effect{Kind: "call", Name: "OnHeader", Args: cl.Args})
@@ -297,6 +298,40 @@ func dialerUpgradeRules(c *Ctx, prop string) {
 		}
 		if !(strings.HasPrefix(last, "Put") || last == "Buffered") {
 			problems = append(problems, "a pooled buffer is used after it was put back ("+last+")")
+		}
+		// extensions: every Sec-WebSocket-Extensions line is matched against the configured offer and
+		// adds to what the earlier lines selected; what is returned is the result of the last match
+		me := p.Calls("matchExtensions")
+		for k, e := range me {
+			if len(e.Args) != 3 {
+				continue
+			}
+			if got := fold.Show(e.Args[1]); !strings.Contains(got, "Extensions") {
+				problems = append(problems, "the server's extensions are matched against "+got+" instead of the dialer's offer "+desc)
+			}
+			prev := "nil"
+			if k > 0 {
+				prev = fmt.Sprintf("matched-exts#%d", k)
+			}
+			empty := false
+			switch v := e.Args[2].(type) {
+			case fold.Nil:
+				empty = true
+			case fold.SliceV:
+				empty = v.Len == 0
+			case fold.SymSeq:
+				empty = v.Nil || v.Len.IsConst() && v.Len.Const() == 0
+			}
+			if got := fold.Show(e.Args[2]); !(k == 0 && empty) && !strings.Contains(got, prev) {
+				problems = append(problems, fmt.Sprintf("extension header line %d is matched into %s instead of what the earlier lines selected (%s): the extensions of all but the last line are lost %s", k+1, got, prev, desc))
+			}
+		}
+		if gotErr == "nil" && len(me) > 0 {
+			if hs, ok := ret[1].(fold.Struct); ok && len(hs.F) == 2 {
+				if got, want := fold.Show(hs.F[1]), fmt.Sprintf("matched-exts#%d", len(me)); !strings.Contains(got, want) {
+					problems = append(problems, "the extensions returned are "+got+", the server selected "+want+" "+desc)
+				}
+			}
 		}
 		if gotErr == "nil" {
 			succ++
